@@ -4,7 +4,7 @@ CONSTANTS
   MaxOps = 4
   Cap = 0
   RingSize = 2
-  STRICT_REMOVE = FALSE
+  STRICT_REMOVE = TRUE
   WatchFile = TRUE
 INVARIANTS InOrder Correlated NoLoss
 CHECK_DEADLOCK FALSE
